@@ -456,6 +456,11 @@ def consumed(ctx):
                 dom = [bb for bb in common if b.dominates(bb, r.entry)]
                 if not own and not dom:
                     ok = False
+            if not regs and len(STREAMING) == 1:
+                # a single streaming codec is compiled in: the decoder enum has one variant and is destructured without a
+                # switch; the drive read then has to dominate the leftover check of the BufReader arm itself
+                las = [bb for bb in arm_blocks if b.term(bb)['k'] == 'call' and (b.term(bb).get('callee') or '').endswith('IntoLeftAfterTake::into_left_after_take')]
+                ok = bool(las) and bool(common) and all(any(b.dominates(c_, l_) for c_ in common) for l_ in las)
             ctx.ob('CONSUMED', 'drive-to-end/' + v, ok, short_loc(b.span),
                    '%s decoder is driven to its end with a 1-byte read (non-zero => Err, error => Err) before into_inner/finish: %s' % (v, ok))
         ctx.floor('CONSUMED', 'drive-to-end', len(STREAMING), 1)
